@@ -190,7 +190,7 @@ func (r *Runner) builtin(ctx context.Context, pos syntax.Pos, name string, args 
 		switch len(args) {
 		case 0:
 		case 1:
-			if n2, err := strconv.Atoi(args[0]); err == nil {
+			if n2, err := strconv.Atoi(args[0]); err == nil && n2 >= 0 {
 				n = n2
 				break
 			}
